@@ -1,6 +1,7 @@
 package govc
 
 import (
+	"go/token"
 	"fmt"
 	"go/constant"
 	"go/types"
@@ -1180,6 +1181,18 @@ func (x *Exec) envForFunc(fn *ssa.Function, c *Contract, params []Val, results [
 			env.vars[names[i]] = v
 		}
 	}
+	// a closure under contract: its captured variables are visible by name, with the value the cell holds in
+	// the state the clause is evaluated in
+	if fn == x.root && len(fn.FreeVars) == len(x.rootFVs) {
+		for i, fv := range fn.FreeVars {
+			if _, taken := env.vars[fv.Name()]; taken {
+				continue
+			}
+			if _, ok := fv.Type().Underlying().(*types.Pointer); ok {
+				env.vars[fv.Name()] = x.load(st, x.rootFVs[i], "true", token.NoPos)
+			}
+		}
+	}
 	if results != nil {
 		bindResults(env, sig, c, results)
 	}
@@ -1238,5 +1251,9 @@ func (f *frame) localEnv(head *ssa.BasicBlock, st *State, reach string) *Env {
 	env.head = head
 	env.reach = reach
 	env.localOverride = map[*ssa.Phi]Val{}
+	// in a loop invariant fresh(x) means: allocated since the function was entered
+	if f.entry != nil {
+		env.allocPre = f.entry.Get(allocName, "Int")
+	}
 	return env
 }
